@@ -496,6 +496,134 @@ Definition proxy_talk := proxy_talk_g true.
 Definition proxy_talk_sub := proxy_talk_sub_g true.
 Definition pstep := pstep_g true.
 
+(* ---- Channels: the tag routing a connection keeps ------------------------------ *)
+(* While a host is in Channel mode, conn.channelRead calls conn.resolve(..., n.Tags, true) for EVERY
+   packet of the Channel.  conn.subs is the set of tags (= table keys) the connection currently
+   routes: for each of them Session.chn of the session under that key points to the host's send
+   queue (Listener.clientSet), so that Session.queue pushes its outbound packets into the host's
+   Channel.  Each call resets all marks, marks the registered tags of the new list (not the host
+   itself), withdraws the routing of every key that is no longer marked (clientClear: chn = nil) --
+   for the EMPTY list that is everything -- and (re)installs the routing of the marked ones
+   (clientSet: only if chn is nil; what is already queued there moves to the host's queue).
+   A zero tag is an error: the reader stops and conn.stop withdraws everything in conn.subs.
+   w_route: key of a session -> key of the host whose send queue its chn is;
+   w_subs: key of a host with a running Channel -> the keys in its conn.subs.
+   Not modelled here: channelWrite (the host's queue is left to be looked at), multi-device packets
+   inside a Channel, lists beyond com.PacketMaxTags, Server.Remove during a Channel, the address /
+   last-seen updates of resolve. *)
+Record cworld := CW { w_tbl : table; w_route : gmap Z Z; w_subs : gmap Z (list Z) }.
+
+Definition tag_valid (t : table) (hid : id) (x : Z) : bool :=
+  match t !! x with Some v => negb (id_eqb (s_id v) hid) | None => false end.
+
+(* the marking loop of resolve: the marked keys (in order) and false if a zero tag was met *)
+Fixpoint mark_tags (t : table) (hid : id) (tags marked : list Z) : list Z * bool :=
+  match tags with
+  | [] => (marked, true)
+  | x :: r =>
+    if x =? 0 then (marked, false)
+    else if existsb (Z.eqb x) marked then mark_tags t hid r marked
+    else if tag_valid t hid x then mark_tags t hid r (marked ++ [x])
+    else mark_tags t hid r marked
+  end.
+
+(* Listener.clientClear *)
+Definition client_clear (w : cworld) (i : Z) : cworld :=
+  match w_tbl w !! i with
+  | Some _ => CW (w_tbl w) (delete i (w_route w)) (w_subs w)
+  | None => w
+  end.
+(* Listener.clientSet(i, the send queue of the host under key hk) *)
+Definition client_set (hk : Z) (w : cworld) (i : Z) : cworld :=
+  match w_tbl w !! i, w_route w !! i with
+  | Some v, None =>
+    let t1 := <[i := set_out v []]> (w_tbl w) in
+    let t2 := match t1 !! hk with Some h => <[hk := set_out h (s_out h ++ s_out v)]> t1 | None => t1 end in
+    CW t2 (<[i := hk]> (w_route w)) (w_subs w)
+  | _, _ => w
+  end.
+
+(* conn.stop: everything in conn.subs (extra: the keys marked by an aborted resolve) is withdrawn *)
+Definition chan_stop (w : cworld) (hk : Z) (extra : list Z) : cworld :=
+  let old := default [] (w_subs w !! hk) in
+  let w1 := fold_left client_clear (old ++ extra) w in
+  CW (w_tbl w1) (w_route w1) (delete hk (w_subs w1)).
+
+(* conn.resolve(.., tags, true) on the connection of the host (ID hid) under key hk *)
+Definition chan_resolve (w : cworld) (hk : Z) (hid : id) (tags : list Z) : cworld * bool :=
+  let old := default [] (w_subs w !! hk) in
+  let '(marked, ok) := mark_tags (w_tbl w) hid tags [] in
+  if ok then
+    let w1 := fold_left client_clear (List.filter (fun k => negb (existsb (Z.eqb k) marked)) old) w in
+    let w2 := fold_left (client_set hk) marked w1 in
+    (CW (w_tbl w2) (w_route w2) (<[hk := marked]> (w_subs w2)), true)
+  else (chan_stop w hk marked, false).
+
+Inductive cop :=
+| KReg (d : id) (j : Z)              (* d's hello through Listener.talk *)
+| KOpen (d : id)                     (* d's connection switches to Channel mode *)
+| KPkt (d : id) (tags : list Z)      (* a Channel packet of d with this tag list *)
+| KClose (d : id)                    (* d's Channel connection ends *)
+| KSend (d : id) (pid job : Z)       (* the operator queues a packet for d: Server.Session(d).Send *)
+| KPoll (d : id).                    (* d polls the Listener on a connection of its own *)
+
+(* the key of d's running Channel *)
+Definition chan_open_key (w : cworld) (d : id) : option Z :=
+  match server_session (w_tbl w) d with
+  | Some _ => match w_subs w !! hash d with Some _ => Some (hash d) | None => None end
+  | None => None
+  end.
+Definition push_out (t : table) (k : Z) (o : out) : table :=
+  match t !! k with Some s => <[k := set_out s (s_out s ++ [o])]> t | None => t end.
+(* a host with a running Channel is not polled / re-registered on a second connection (the real
+   Session.next waits there); such operations are skipped: ABool false *)
+Definition cstep (w : cworld) (o : cop) : cworld * ans :=
+  match o with
+  | KReg d j =>
+    match chan_open_key w d with
+    | Some _ => (w, ABool false)
+    | None => let '(t', _, r) := talk 0 (w_tbl w) (Single (Leaf d SvHello j BHello) []) in
+              (CW t' (w_route w) (w_subs w), r)
+    end
+  | KOpen d =>
+    match server_session (w_tbl w) d with
+    | Some _ => match w_subs w !! hash d with
+                | Some _ => (w, ABool false)
+                | None => (CW (w_tbl w) (w_route w) (<[hash d := []]> (w_subs w)), ABool true)
+                end
+    | None => (w, ABool false)
+    end
+  | KPkt d tags =>
+    match chan_open_key w d with
+    | Some hk =>
+      (* a zero tag never reaches resolve on this path: Packet.Unmarshal refuses it, the reader stops *)
+      if existsb (Z.eqb 0) tags then (chan_stop w hk [], AErr ETag)
+      else let '(w', ok) := chan_resolve w hk d tags in (w', if ok then ABool true else AErr ETag)
+    | None => (w, ABool false)
+    end
+  | KClose d =>
+    match chan_open_key w d with
+    | Some hk => (chan_stop w hk [], ABool true)
+    | None => (w, ABool false)
+    end
+  | KSend d pid job =>
+    match server_session (w_tbl w) d with
+    | Some s =>
+      let q := match w_route w !! hash d with Some hk => hk | None => hash d end in
+      (CW (push_out (w_tbl w) q (d, pid, job)) (w_route w) (w_subs w), AFound (Some (s_id s)))
+    | None => (w, AFound None)
+    end
+  | KPoll d =>
+    match chan_open_key w d with
+    | Some _ => (w, ABool false)
+    | None => let '(t', _, r) := talk 0 (w_tbl w) (Single (Leaf d 0 0 BEmpty) []) in
+              (CW t' (w_route w) (w_subs w), r)
+    end
+  end.
+Fixpoint crun (w : cworld) (ops : list cop) : cworld :=
+  match ops with [] => w | o :: r => crun (cstep w o).1 r end.
+Definition cw0 : cworld := CW ∅ ∅ ∅.
+
 (* ---- correspondence cases --------------------------------------------------- *)
 (* observable events of one step, in the order the server's event loop delivered them *)
 Inductive ev := VNew (sid : id) | VRecv (sid pdev : id) (job : Z) | VDrop (sid : id).
@@ -513,11 +641,19 @@ Definition psnapshot (x : proxy) : list (Z * id * list out) :=
 Record obs := Obs { o_ans : ans; o_evs : list ev; o_tbl : list snap }.
 Record pobs := PObs { po_ans : ans; po_up : list out; po_tbl : list (Z * id * list out) }.
 
+(* one step of a Channel history: answer, per session (key, ID, key of the host it is routed to or 0,
+   queue sorted by job/ID), per running Channel (key of the host, conn.subs ascending).  The queues are
+   compared sorted because clientSet runs over a Go map: the order in which several queues are
+   moved into the host's queue is not determined. *)
+Definition csnap := (Z * id * Z * list out)%type.
+Record cobs := CObs { co_ans : ans; co_tbl : list csnap; co_conns : list (Z * list Z) }.
+
 Inductive case :=
 | CHash (d : id) (h : Z)                                        (* ID.Hash *)
 | CConsts (hello register complete refresh : Z)                 (* SvHello, SvRegister, SvComplete, MvRefresh *)
 | CHist (ops : list op) (o : list obs)                          (* a history on a fresh Server + Listener *)
-| CProxy (ops : list pop) (o : list pobs).                      (* a history on a fresh Proxy *)
+| CProxy (ops : list pop) (o : list pobs)                       (* a history on a fresh Proxy *)
+| CChan (ops : list cop) (o : list cobs).                       (* a history with Channels on a fresh Server + Listener *)
 
 Definition out_eqb (a b : out) : bool :=
   let '(d, p, j) := a in let '(d', p', j') := b in id_eqb d d' && (p =? p') && (j =? j').
@@ -583,12 +719,36 @@ Fixpoint prun_check (chk : bool) (x : proxy) (ops : list pop) (o : list pobs) : 
   | _, _ => false
   end.
 
+Definition out_key (o : out) : Z := let '(_, pid, job) := o in job * 256 + pid.
+Definition csnapshot (w : cworld) : list csnap :=
+  sort_by (fun s : csnap => let '(k, _, _, _) := s in k)
+    (map (fun kv => (fst kv, s_id (snd kv), default 0 (w_route w !! fst kv), sort_by out_key (s_out (snd kv))))
+         (map_to_list (w_tbl w))).
+Definition cconns (w : cworld) : list (Z * list Z) :=
+  sort_by fst (map (fun kv => (fst kv, sort_by (fun x : Z => x) (snd kv))) (map_to_list (w_subs w))).
+Definition sort_reply (a : ans) : ans :=
+  match a with AReply k l => AReply k (sort_by out_key l) | _ => a end.
+Definition csnap_eqb (a b : csnap) : bool :=
+  let '(k, d, r, q) := a in let '(k', d', r', q') := b in (k =? k') && id_eqb d d' && (r =? r') && outs_eqb q q'.
+Fixpoint crun_check (w : cworld) (ops : list cop) (o : list cobs) : bool :=
+  match ops, o with
+  | [], [] => true
+  | x :: ops', y :: o' =>
+    let '(w', r) := cstep w x in
+    ans_eqb (sort_reply r) (co_ans y)
+    && list_eqb csnap_eqb (csnapshot w') (co_tbl y)
+    && list_eqb (fun a b => (fst a =? fst b) && zlist_eqb (snd a) (snd b)) (cconns w') (co_conns y)
+    && crun_check w' ops' o'
+  | _, _ => false
+  end.
+
 Definition check_g (chk : bool) (c : case) : bool :=
   match c with
   | CHash d h => hash d =? h
   | CConsts a b c d => (a =? SvHello) && (b =? SvRegister) && (c =? SvComplete) && (d =? MvRefresh)
   | CHist ops o => run_check chk 1 ∅ ops o
   | CProxy ops o => prun_check chk (Proxy ∅ []) ops o
+  | CChan ops o => crun_check cw0 ops o
   end.
 (* the code as it is *)
 Definition check := check_g true.
